@@ -26,7 +26,14 @@ import (
 	"github.com/uber-go/gopatch/verif/evid"
 )
 
-const verifRoot = "/verif"
+// verifRoot is /verif unless VERIF_ROOT points at a scratch copy (used while
+// developing a check against a scratch copy of the repository).
+var verifRoot = func() string {
+	if r := os.Getenv("VERIF_ROOT"); r != "" {
+		return r
+	}
+	return "/verif"
+}()
 
 type tierCfg struct {
 	Shards  int
@@ -397,6 +404,7 @@ func runShard(id, tier, dir, gopatch, testbin string, tc tierCfg, sd int64, k in
 		"VERIF_RSEED="+strconv.FormatUint(rseed, 10),
 		"VERIF_BUILD_DIR="+dir,
 		"VERIF_TESTBIN="+testbin,
+		"VERIF_ROOT="+verifRoot,
 	)
 	cmd.Env = append(cmd.Env, tc.Env...)
 	var buf bytes.Buffer
@@ -468,7 +476,7 @@ func replay(id string, cfg propCfg, file string) int {
 	cmd.Dir = filepath.Join(verifRoot, "harness", "props")
 	cmd.Env = append(goEnv(), "VERIF_REPLAY="+abs, "VERIF_GOPATCH="+gopatch, "VERIF_TMP="+tmp, "TMPDIR="+tmp,
 		"VERIF_SHARD_OUT="+shardOut, "VERIF_REPLAY_OUT="+filepath.Join(dir, "replay-out.json"), "VERIF_TIER=quick",
-		"VERIF_BUILD_DIR="+dir, "VERIF_TESTBIN="+testbin)
+		"VERIF_BUILD_DIR="+dir, "VERIF_TESTBIN="+testbin, "VERIF_ROOT="+verifRoot)
 	var buf bytes.Buffer
 	cmd.Stdout, cmd.Stderr = io.MultiWriter(&buf, os.Stdout), io.MultiWriter(&buf, os.Stderr)
 	err = cmd.Run()
